@@ -8,6 +8,7 @@ import Proofs.SplitJoin
 import Proofs.LineShape
 import Proofs.Renders
 import Proofs.FloatLaw
+import Proofs.FloatLoop
 /-!
 C01 — property theorems.
 
@@ -501,6 +502,69 @@ theorem law_flt_F (f : Field) (dec : Nat) (fmt c : Char) (hk : f.kind = .flt dec
   · rw [h3, hcan]; rfl
   · rw [hcan]; exact h4
 
+theorem sep_facts {c : Char} (hsep : sepOk [c] = true) : c ≠ ' ' ∧ c.isDigit = false ∧ c ≠ '-' := by
+  simp only [sepOk, Bool.not_eq_true', Bool.or_eq_false_iff] at hsep
+  obtain ⟨⟨⟨⟨⟨⟨⟨⟨⟨⟨⟨⟨⟨⟨h1, h2⟩, _⟩, _⟩, _⟩, h5⟩, _⟩, _⟩, _⟩, _⟩, _⟩, _⟩, _⟩, _⟩, _⟩ := hsep
+  refine ⟨?_, ?_, ?_⟩
+  · intro e; subst e; revert h5; decide
+  · cases hd : c.isDigit with
+    | false => rfl
+    | true =>
+      have := (Cfi.isDigit_iff c).1 hd
+      have : isAsciiDigit c = true := by
+        simp only [isAsciiDigit, Bool.and_eq_true, decide_eq_true_eq]
+        constructor
+        · show '0'.toNat ≤ c.toNat; simp; omega
+        · show c.toNat ≤ '9'.toNat; simp; omega
+      rw [this] at h1; exact absurd h1 (by simp)
+  · intro e; subst e; simp at h2
+
+/-- **Floats in F notation, full law, general case** — the decimals-dropping loop included.
+For every finite double below `2^1013` in magnitude and every F-notation float field (any
+width, up to 323 declared decimals, any admitted separator) in which the value fits
+(`Spec.C02.fits`: the text the writer settles on, after dropping as many decimals as needed,
+is at most `size` wide): the text is `size` wide, reads back as the double nearest to the
+decimal emitted, and writing that double gives the same text with the same number of
+decimals (`Proofs.FloatLoop.loop_stable`: at every finer resolution the value read back has
+at least as many integer digits as `x`). -/
+theorem law_flt_F_gen (f : Field) (dec : Nat) (fmt c : Char) (hk : f.kind = .flt dec fmt [c])
+    (hfmt : fmt = 'F' ∨ fmt = 'f') (hsep : sepOk [c] = true)
+    (neg : Bool) (m : Nat) (e : Int) (hwf : Proofs.FloatLoop.wfs m e) (hdec : dec ≤ 323)
+    (hfits : Spec.C02.fits f (.dbl (.fin neg m e)) = true) :
+    RenderLaw f (.dbl (.fin neg m e)) := by
+  obtain ⟨hc1, hc2, hc3⟩ := sep_facts hsep
+  -- what `fits` says about the loop
+  simp only [Spec.C02.fits, Bool.and_eq_true, beq_iff_eq] at hfits
+  obtain ⟨⟨hgeo, _⟩, hren⟩ := hfits
+  have hloop : ∃ s, floatLoopF (.fin neg m e) f.size (fmt == 'F') dec = .ok s ∧ s.length ≤ f.size := by
+    unfold renderFull at hren
+    rw [hk] at hren
+    rcases hfmt with rfl | rfl
+    · cases h : floatLoopF (.fin neg m e) f.size true dec with
+      | error ex => simp [Val.isNull, Dbl.isNaN, h, Except.map] at hren
+      | ok s =>
+        simp [Val.isNull, Dbl.isNaN, h, Except.map, Proofs.FloatLaw.replace_single, Proofs.FloatLaw.subst1_length] at hren
+        exact ⟨s, by simpa using h, hren⟩
+    · cases h : floatLoopF (.fin neg m e) f.size false dec with
+      | error ex => simp [Val.isNull, Dbl.isNaN, h, Except.map] at hren
+      | ok s =>
+        simp [Val.isNull, Dbl.isNaN, h, Except.map, Proofs.FloatLaw.replace_single, Proofs.FloatLaw.subst1_length] at hren
+        exact ⟨s, by simpa using h, hren⟩
+  obtain ⟨s, hs, hslen⟩ := hloop
+  obtain ⟨t, r, d', h1, h2, h3, h4, _⟩ :=
+    Proofs.FloatLoop.fltF_core_gen f dec fmt c hk hfmt hc1 hc2 hc3 neg m e hwf hdec s hs hslen
+  have hpf : Dbl.pyFloat (replace t [c] ['.']) = some r := by
+    rw [hk] at h3
+    simp only [parseText] at h3
+    cases hp : Dbl.pyFloat (replace t [c] ['.']) with
+    | none => rw [hp] at h3; simp at h3
+    | some d => rw [hp] at h3; simp at h3; rw [h3]
+  have hcan : canon f (.dbl (.fin neg m e)) t = .dbl r := by
+    simp only [canon, Val.isNull, Dbl.isNaN, Bool.false_eq_true, if_false, hk, hpf]
+  refine ⟨t, ⟨h1, h2, hgeo⟩, ?_, ?_⟩
+  · rw [h3, hcan]; rfl
+  · rw [hcan]; exact h4
+
 /-- non-vacuity of `law_flt_F`: 1.5 in an 8-wide field with two decimals and a decimal comma
 meets every premise, and the text is the expected one -/
 example :
@@ -771,6 +835,66 @@ theorem main_nofloat (fs : List Field) (vs : List Val) (h : inDomain fs vs = tru
       simp only [Val.isNull] at this
       simp [this]
     · rfl
+
+/-- the admitted non-missing floats of the F-notation theorems -/
+def FloatF (f : Field) (v : Val) : Prop :=
+  ∀ dec fmt sep, f.kind = .flt dec fmt sep → v.isNull = true ∨
+    ((fmt = 'F' ∨ fmt = 'f') ∧ dec ≤ 323 ∧ ∃ neg m e, v = .dbl (.fin neg m e) ∧ Proofs.FloatLoop.wfs m e)
+
+/-- **The full law from the decidable domain guard, F-notation floats included.** -/
+theorem renderLaw_of_domain_F (f : Field) (v : Val) (h : fieldInDomain f v = true)
+    (hdate : ∀ fmts, f.kind = .date fmts → v.isNull = true → ∀ fm ∈ fmts, fm ≠ [])
+    (hbig : ∀ n, v = .int n → n.natAbs < 10 ^ 4300)
+    (hflt : FloatF f v) : RenderLaw f v := by
+  by_cases hnull : ∀ dec fmt sep, f.kind = .flt dec fmt sep → v.isNull = true
+  · exact renderLaw_of_domain f v h hdate hbig hnull
+  · -- a non-missing float
+    have : ∃ dec fmt sep, f.kind = .flt dec fmt sep ∧ v.isNull = false := by
+      apply Classical.byContradiction
+      intro hno
+      apply hnull
+      intro dec fmt sep hk
+      cases hv : v.isNull with
+      | true => rfl
+      | false => exact absurd ⟨dec, fmt, sep, hk, hv⟩ hno
+    obtain ⟨dec, fmt, sep, hk, hv⟩ := this
+    rcases hflt dec fmt sep hk with hn | ⟨hfmt, hdec, neg, m, e, rfl, hwf⟩
+    · rw [hn] at hv; exact absurd hv (by simp)
+    · have hdom := h
+      simp only [fieldInDomain, Bool.and_eq_true, decide_eq_true_eq, hk] at hdom
+      obtain ⟨⟨hfits, _⟩, hsep, _⟩ := hdom
+      -- the separator is one admitted character
+      obtain ⟨c, rfl⟩ : ∃ c, sep = [c] := by
+        cases sep with
+        | nil => simp [sepOk] at hsep
+        | cons c t =>
+          cases t with
+          | nil => exact ⟨c, rfl⟩
+          | cons _ _ => simp [sepOk] at hsep
+      exact law_flt_F_gen f dec fmt c hk hfmt hsep neg m e hwf hdec hfits
+
+/-- **C01 for layouts with F-notation floats: read-back and text stability.** For every layout
+and value list admitted by `Spec.C01.inDomain` whose non-missing floats are finite doubles below
+`2^1013` in F-notation fields of at most 323 decimals: the model's write / read / re-write
+cycle succeeds, the values read back are the canonical forms, and the re-written text is
+identical to the written one. (The remaining clauses of `Spec.C01.holds` about floats —
+dialect, half-unit accuracy, maximal number of decimals — are evaluated per case.) -/
+theorem main_F (fs : List Field) (vs : List Val) (h : inDomain fs vs = true)
+    (hdate : ∀ fv ∈ fs.zip vs, ∀ fmts, fv.1.kind = .date fmts → fv.2.isNull = true → ∀ fm ∈ fmts, fm ≠ [])
+    (hbig : ∀ v ∈ vs, ∀ n, v = .int n → n.natAbs < 10 ^ 4300)
+    (hflt : ∀ fv ∈ fs.zip vs, FloatF fv.1 fv.2) :
+    ∃ o, cycle fs vs = some o ∧ o.rewritten = o.written ∧
+      o.readBack = (fs.zip vs).map (fun fv => canon fv.1 fv.2 (slice o.written fv.1.start fv.1.stop)) := by
+  obtain ⟨w, hw, hread⟩ := readBack_of_inDomain fs vs h hdate hbig
+  simp only [inDomain, Bool.and_eq_true, beq_iff_eq, List.all_eq_true] at h
+  obtain ⟨⟨hlen, hdis⟩, hdom⟩ := h
+  have hD := Disjoint_of_bool' fs hdis
+  have hlaw : ∀ fv ∈ fs.zip vs, RenderLaw fv.1 fv.2 := by
+    intro fv hfv
+    have hm := List.of_mem_zip hfv
+    exact renderLaw_of_domain_F fv.1 fv.2 (hdom fv hfv) (hdate fv hfv) (hbig fv.2 hm.2) (hflt fv hfv)
+  have hst := line_stable fs vs w hlen hD hlaw hw
+  exact ⟨⟨w, readPos fs w, w⟩, by simp [cycle, hw, hst], rfl, hread⟩
 
 /-- non-vacuity of the laws: a concrete layout with gaps, in reversed order -/
 example :
